@@ -500,7 +500,7 @@ def run(tier, seed):
     # ---- TLC judges the recorded (snapped) outputs
     for P, traces in sorted(cx.traces.items()):
         clean = [{'pts': t['pts'], 'events': [{k: v for k, v in e.items() if not k.startswith('_')} for e in t['events']]} for t in traces]
-        verdicts, stt, trn = tlc.validate_traces('HierBasisTrace', clean, 'c10', constants='CONSTANTS M = %d\n P = %d\n' % (M, P), chunk=1500)
+        verdicts, stt, trn = tlc.validate_traces('HierBasisTrace', clean, 'c10', constants='CONSTANTS M = %d\n P = %d\n' % (M, P), chunk=1500, unevaluable='C10_SpecEvaluable')
         rep.cov['states'] += stt
         rep.cov['transitions'] += trn
         rep.cov['traces_validated_against_impl'] += len(traces)
